@@ -83,6 +83,10 @@ pub fn judge(case: &Case, acc: &mut Acc) {
         let clause = if extra_exposed { "exposes-unauthenticated" } else { "hides-exposable" };
         viol!(acc, P, clause, case, "iterated attributes differ from the exposure rule", show(&want), show(&got));
     }
+    let (got2, _) = real::iterate(&msg, 0);
+    if got2 != got {
+        viol!(acc, P, "second-iteration-differs", case, "iterating the same message a second time exposes other attributes", show(&got), show(&got2));
+    }
     if !after.is_empty() {
         viol!(acc, P, "iterator-not-fused", case, "the attribute iterator yields again after returning None", "None forever", show(&after));
     }
